@@ -190,11 +190,11 @@ fn parse(p: &str) -> Option<Node> {
 }
 
 /// all end positions of matches of `n` starting at `i` (continuation-passing backtracking)
-fn m(n: &Node, s: &[char], i: usize, k: &mut dyn FnMut(usize) -> bool, fuel: &mut u64) -> bool {
-    if *fuel == 0 {
+fn m(n: &Node, s: &[char], i: usize, k: &mut dyn FnMut(usize) -> bool, fuel: &std::cell::Cell<u64>) -> bool {
+    if fuel.get() == 0 {
         return false;
     }
-    *fuel -= 1;
+    fuel.set(fuel.get() - 1);
     match n {
         Node::Char(c) => i < s.len() && s[i] == *c && k(i + 1),
         // `.` does not match a line feed in the regex crate's default mode
@@ -216,29 +216,25 @@ fn m(n: &Node, s: &[char], i: usize, k: &mut dyn FnMut(usize) -> bool, fuel: &mu
     }
 }
 
-fn seq(items: &[Node], s: &[char], i: usize, k: &mut dyn FnMut(usize) -> bool, fuel: &mut u64) -> bool {
+fn seq(items: &[Node], s: &[char], i: usize, k: &mut dyn FnMut(usize) -> bool, fuel: &std::cell::Cell<u64>) -> bool {
     match items.split_first() {
         None => k(i),
         Some((first, rest)) => {
-            let mut cont = |j: usize| -> bool {
-                // fuel is threaded through a raw pointer-free re-borrow: use a local counter
-                let mut f2 = u64::MAX / 4;
-                seq(rest, s, j, k, &mut f2)
-            };
+            // one budget for the whole search: the continuations share it
+            let mut cont = |j: usize| -> bool { seq(rest, s, j, k, fuel) };
             m(first, s, i, &mut cont, fuel)
         }
     }
 }
 
 #[allow(clippy::too_many_arguments)]
-fn rep(inner: &Node, min: usize, max: Option<usize>, count: usize, s: &[char], i: usize, k: &mut dyn FnMut(usize) -> bool, fuel: &mut u64) -> bool {
+fn rep(inner: &Node, min: usize, max: Option<usize>, count: usize, s: &[char], i: usize, k: &mut dyn FnMut(usize) -> bool, fuel: &std::cell::Cell<u64>) -> bool {
     if max.map(|mx| count < mx).unwrap_or(true) {
         let mut cont = |j: usize| -> bool {
             if j == i && count >= min {
                 return false; // an empty iteration beyond the minimum makes no progress
             }
-            let mut f2 = 2_000_000u64;
-            rep(inner, min, max, count + 1, s, j, k, &mut f2)
+            rep(inner, min, max, count + 1, s, j, k, fuel)
         };
         if m(inner, s, i, &mut cont, fuel) {
             return true;
@@ -251,15 +247,15 @@ fn rep(inner: &Node, min: usize, max: Option<usize>, count: usize, s: &[char], i
 pub fn is_match(pattern: &str, subject: &str, search: bool) -> Option<bool> {
     let n = parse(pattern)?;
     let s: Vec<char> = subject.chars().collect();
-    let mut fuel = 2_000_000u64;
+    let fuel = std::cell::Cell::new(2_000_000u64);
     let starts: Vec<usize> = if search { (0..=s.len()).collect() } else { vec![0] };
     for st in starts {
         let mut k = |j: usize| -> bool { search || j == s.len() };
-        if m(&n, &s, st, &mut k, &mut fuel) {
+        if m(&n, &s, st, &mut k, &fuel) {
             return Some(true);
         }
     }
-    if fuel == 0 {
+    if fuel.get() == 0 {
         return None;
     }
     Some(false)
